@@ -11,6 +11,7 @@ import (
 
 	lgonum "gonum.org/v1/gonum/lapack/gonum"
 
+	"gonum.org/v1/gonum/internal/verif/vhook"
 	"gonum.org/v1/gonum/internal/verif/vlib"
 )
 
@@ -19,45 +20,117 @@ import (
 // ("these conditions are not checked") and the tuning-parameter functions.
 var lapackNoContract = []string{"Dlae2", "Dlaev2", "Dlag2", "Dlags2", "Dlanv2", "Dlapy2", "Dlartg", "Dlas2", "Dlasv2", "Dlasy2", "Ilaenv", "Iparmq"}
 
+// seamProfile is an answer set for Ilaenv (block size nb, minimal block size
+// nbmin, crossover nx) and Iparmq (nmin) installed while a case runs.
+type seamProfile struct {
+	name          string
+	nb, nbmin, nx int
+	nmin          int   // Iparmq ispec 12: below this order Dhseqr uses Dlahqr
+	answers       int64 // number of Ilaenv questions answered in the current case (vacuity guard)
+}
+
+func (p *seamProfile) install() (restore func()) {
+	if p == nil {
+		return func() {}
+	}
+	vhook.IlaenvFunc = func(ispec int, name, opts string, n1, n2, n3, n4 int) (int, bool) {
+		p.answers++
+		switch ispec {
+		case 1:
+			return p.nb, true
+		case 2:
+			return p.nbmin, true
+		case 3:
+			return p.nx, true
+		}
+		return 0, false
+	}
+	vhook.IparmqFunc = func(ispec int, name, opts string, n, ilo, ihi, lwork int) (int, bool) {
+		if ispec == 12 && p.nmin > 0 {
+			return p.nmin, true
+		}
+		return 0, false
+	}
+	return func() { vhook.IlaenvFunc, vhook.IparmqFunc = nil, nil }
+}
+
+// blockedRoutines are the rows whose implementation (directly or through a
+// nested routine) asks Ilaenv for a block size and has a blocked/unblocked split.
+var blockedRoutines = map[string]bool{}
+
+func init() {
+	for _, n := range strings.Fields(`Dgebrd Dgeev Dgehrd Dgelqf Dgels Dgeqp3 Dgeqrf Dgerqf Dgesvd Dgetrf Dgetri Dhseqr Dlaqr04 Dlaqr23 Dlauum
+		Dorghr Dorglq Dorgql Dorgqr Dorgtr Dormbr Dormhr Dormlq Dormqr Dpbtrf Dpotrf Dpstrf Dpttrs Dsyev Dsytrd Dtrevc3 Dtrtri
+		Dgesv Dpotri Dorgbr Dggsvd3 Dggsvp3 Dptsv Dpbtrs`) {
+		blockedRoutines[n] = true
+	}
+}
+
+// genLapackBlocked runs the rows that have a blocked code path once more with
+// tiny block sizes answered through the ilaenv seam, so that dimensions <= 7
+// take the blocked path (and the hand-over to the unblocked remainder) for the
+// whole fault grid and for every legal lwork.
+func genLapackBlocked(g *vlib.G) {
+	profiles := []*seamProfile{{name: "nb2-nx0", nb: 2, nbmin: 2, nx: 0, nmin: 12}, {name: "nb2-nx3", nb: 2, nbmin: 2, nx: 3, nmin: 12}}
+	if g.Thorough() {
+		profiles = append(profiles, &seamProfile{name: "nb3-nx1", nb: 3, nbmin: 2, nx: 1, nmin: 12}, &seamProfile{name: "nb2-nbmin3-nx0", nb: 2, nbmin: 3, nx: 0, nmin: 12})
+	}
+	for _, p := range profiles {
+		genLapackWith(g, p, vlib.Pick(g, []int{0, 3, 5, 7}, []int{0, 2, 3, 5, 6, 8}))
+	}
+}
+
 func genLapack(g *vlib.G) {
+	genLapackWith(g, nil, vlib.Pick(g, []int{0, 1, 2, 3, 5}, []int{0, 1, 2, 3, 4, 6}))
+}
+
+func genLapackWith(g *vlib.G, prof *seamProfile, defMenu []int) {
 	if vlib.Env("VERIF_CONFIG", "default") == "bounds" {
 		return // the bounds tag only affects mat
 	}
 	impl := reflect.ValueOf(lgonum.Implementation{})
 	rows := lapackRows()
-	g.Case("table", func(t *vlib.T) {
-		// every exported method of lapack/gonum.Implementation is either a row of the
-		// table or listed as having no argument contract.
-		seen := map[string]int{}
-		for _, r := range rows {
-			seen[r.name]++
-		}
-		for _, n := range lapackNoContract {
-			seen[n]++
-		}
-		ty := impl.Type()
-		var bad []string
-		for i := 0; i < ty.NumMethod(); i++ {
-			n := ty.Method(i).Name
-			if seen[n] != 1 {
-				bad = append(bad, n)
+	prefix := ""
+	if prof != nil {
+		prefix = prof.name + " "
+	}
+	if prof == nil {
+		g.Case("table", func(t *vlib.T) {
+			// every exported method of lapack/gonum.Implementation is either a row of the
+			// table or listed as having no argument contract.
+			seen := map[string]int{}
+			for _, r := range rows {
+				seen[r.name]++
 			}
-			delete(seen, n)
-		}
-		for n := range seen {
-			bad = append(bad, "+"+n)
-		}
-		sort.Strings(bad)
-		if len(bad) > 0 {
-			t.Failf("contract table and lapack/gonum.Implementation disagree: %v", bad)
-		}
-		t.Count("lapack_methods", int64(ty.NumMethod()))
-		t.Count("lapack_rows", int64(len(rows)))
-		t.Outcome(fmt.Sprintf("methods=%d rows=%d", ty.NumMethod(), len(rows)))
-		t.Nontrivial()
-	})
-	defMenu := vlib.Pick(g, []int{0, 1, 2, 3, 5}, []int{0, 1, 2, 3, 4, 6})
+			for _, n := range lapackNoContract {
+				seen[n]++
+			}
+			ty := impl.Type()
+			var bad []string
+			for i := 0; i < ty.NumMethod(); i++ {
+				n := ty.Method(i).Name
+				if seen[n] != 1 {
+					bad = append(bad, n)
+				}
+				delete(seen, n)
+			}
+			for n := range seen {
+				bad = append(bad, "+"+n)
+			}
+			sort.Strings(bad)
+			if len(bad) > 0 {
+				t.Failf("contract table and lapack/gonum.Implementation disagree: %v", bad)
+			}
+			t.Count("lapack_methods", int64(ty.NumMethod()))
+			t.Count("lapack_rows", int64(len(rows)))
+			t.Outcome(fmt.Sprintf("methods=%d rows=%d", ty.NumMethod(), len(rows)))
+			t.Nontrivial()
+		})
+	}
 	for _, r := range rows {
+		if prof != nil && !blockedRoutines[r.name] {
+			continue
+		}
 		lm := newLMethod(impl, r)
 		type axis struct {
 			name string
@@ -78,8 +151,11 @@ func genLapack(g *vlib.G) {
 				}
 			case lkDim:
 				menu := defMenu
-				if r.dims != nil {
+				if r.dims != nil && prof == nil {
 					menu = r.dims
+				}
+				if r.dims != nil && prof != nil {
+					menu = []int{0, 3, 6} // rows with a reduced menu of their own
 				}
 				if a.menu != nil {
 					menu = a.menu
@@ -94,7 +170,7 @@ func genLapack(g *vlib.G) {
 		vlib.Product(rad, func(idx []int) bool {
 			vals := map[string]int{}
 			var key strings.Builder
-			key.WriteString(r.name)
+			key.WriteString(prefix + r.name)
 			for i, a := range axes {
 				x := a.vals[idx[i]]
 				vals[a.name] = x
@@ -107,7 +183,16 @@ func genLapack(g *vlib.G) {
 			if r.ok != nil && !r.ok(&lenv{v: vals}) {
 				return true
 			}
-			g.Case(key.String(), func(t *vlib.T) { runLapackCase(t, lm, vals) })
+			g.Case(key.String(), func(t *vlib.T) {
+				defer prof.install()()
+				if prof != nil {
+					prof.answers = 0
+				}
+				runLapackCase(t, lm, vals, prof != nil)
+				if prof != nil {
+					t.Count("ilaenv_seam_answers", prof.answers)
+				}
+			})
 			return !g.Stopped()
 		})
 		if g.Stopped() {
@@ -116,7 +201,7 @@ func genLapack(g *vlib.G) {
 	}
 }
 
-func runLapackCase(t *vlib.T, lm *lmethod, vals map[string]int) {
+func runLapackCase(t *vlib.T, lm *lmethod, vals map[string]int, blocked bool) {
 	r := lm.r
 	st := lstats{kinds: map[string]bool{}}
 	nld := 0
@@ -146,17 +231,40 @@ func runLapackCase(t *vlib.T, lm *lmethod, vals map[string]int) {
 			variants = append(variants, map[string]float64{a.name: x})
 		}
 	}
-	for iv, fv := range variants {
-		for id, d := range deltas {
-			if iv > 0 && id > 0 {
-				break // thin grid for the scalar variants: minimal leading dimensions, single faults only
-			}
-			for _, mode := range modes {
-				e := &lenv{v: map[string]int{}, fv: fv}
-				for k, x := range vals {
-					e.v[k] = x
+	ninit := 1
+	for _, a := range r.args {
+		ninit = imax(ninit, len(a.inits))
+	}
+	// modes with the full fault menu, and the intermediate legal lwork values that are
+	// run as valid calls (heap and guard pages) only; the blocked group faults them all.
+	var extra []int
+	if _, ok := r.pos["lwork"]; ok {
+		extra = []int{lwMinPlus1, lwMid, lwOptMinus1, lwOptPlus3}
+	}
+	if blocked && len(deltas) > 2 {
+		deltas = [][]int{{0}, {0, 2}}
+	}
+	for init := 0; init < ninit; init++ {
+		for iv, fv := range variants {
+			for id, d := range deltas {
+				if (iv > 0 || init > 0) && id > 0 {
+					break // thin grid for the scalar / content variants: minimal leading dimensions, single faults only
 				}
-				lm.runBase(debugFailer{t}, e, d, mode, iv == 0, &st)
+				run := func(mode int, faults, pairs bool) {
+					e := &lenv{v: map[string]int{"#init": init}, fv: fv}
+					for k, x := range vals {
+						e.v[k] = x
+					}
+					lm.runBase(debugFailer{t}, e, d, mode, faults, pairs, &st)
+				}
+				for _, mode := range modes {
+					run(mode, true, iv == 0 && init == 0 && (!blocked || mode == lwOpt || mode == lwNone))
+				}
+				if iv == 0 && id == 0 {
+					for _, mode := range extra {
+						run(mode, blocked, false)
+					}
+				}
 			}
 		}
 	}
